@@ -98,6 +98,24 @@ theorem C09_error_class (fixed : Bool) (t : JT) (plan : List Step) (hno : leaves
   · rw [h]; trivial
   · rw [h]; exact hu
 
+/-- **CTE references** (`plan_cte` stores, `get_integration_select_step` tests and fetches): whenever the membership
+test and the dictionary access spell the key alike — as written (`CteKeys.exact`, the code as it is) or
+case-folded (`CteKeys.folded`) — a bare table name resolves without raising and the emitted step satisfies C09 -/
+theorem C09_cte_lookup (k : CteKeys) (hk : ∀ m, k.test m = k.fetch m) (dict : List (Name × SNum)) (name : Name)
+    (params : List SNum) (plan : List Step) (hok : stepsOK 0 plan = true)
+    (hd : ∀ key r, (key, r) ∈ dict → refOKTop plan.length r = true)
+    (hp : params.all (refOKTop plan.length) = true) : C09_body (planTableRef k dict name params) plan :=
+  body_of_good (planTableRef_good plan.length k hk dict hd name params hp) plan (Nat.le_refl _) hok
+
+example : ∀ m, CteKeys.exact.test m = CteKeys.exact.fetch m := fun _ => rfl
+example : ∀ m, CteKeys.folded.test m = CteKeys.folded.fetch m := fun _ => rfl
+
+/-- an incomplete case-insensitive refactor (store and test folded, access as written): `WITH Ab AS … FROM Ab`
+ends in `KeyError` — the hypothesis of `C09_cte_lookup` is necessary -/
+theorem C09_witness_cte_keys :
+    ¬ C09_body (planTableRef ⟨lowerName, lowerName, id⟩ (cteStore ⟨lowerName, lowerName, id⟩ [] [65, 98] (.top 0))
+        [65, 98] []) [⟨.fetch, some (.top 0), [], []⟩] := by decide
+
 /-! ### witnesses: the defect of the unrepaired `add_plan_step` (KF-C09-1, fixed by faf0f40) -/
 
 /-- `t JOIN model JOIN t2 ON t.id = t2.id USING partition_size=N` -/
